@@ -92,9 +92,10 @@ class _CallInliner(ast.NodeTransformer):
 
 
 class _Yielder(ast.NodeTransformer):
-    def __init__(self, inline_calls=False):
+    def __init__(self, inline_calls=False, split_aug=False):
         self.n = 0
         self.inline_calls = inline_calls
+        self.split_aug = split_aug
 
     def _block(self, stmts):
         out = []
@@ -110,6 +111,17 @@ class _Yielder(ast.NodeTransformer):
                 continue
             y = ast.Expr(ast.Yield(ast.Tuple([ast.Constant("line"), ast.Constant(getattr(s, "lineno", 0))], ast.Load())))
             out.append(ast.copy_location(y, s))
+            if self.split_aug and isinstance(s, ast.AugAssign) and isinstance(s.target, (ast.Attribute, ast.Name)) \
+                    and any(isinstance(x, ast.Call) for x in ast.walk(s.value)):
+                # `X += f(...)` is: load X, run f, add, store X -- a second scheduling point between the load and the call
+                import copy
+                load = copy.deepcopy(s.target)
+                load.ctx = ast.Load()
+                out.append(ast.copy_location(ast.Assign([ast.Name("_ls_aug", ast.Store())], load), s))
+                y2 = ast.Expr(ast.Yield(ast.Tuple([ast.Constant("line"), ast.Constant(getattr(s, "lineno", 0))], ast.Load())))
+                out.append(ast.copy_location(y2, s))
+                out.append(ast.copy_location(ast.Assign([s.target], ast.BinOp(ast.Name("_ls_aug", ast.Load()), s.op, s.value)), s))
+                continue
             if not self.inline_calls:
                 pass
             elif isinstance(s, (ast.If, ast.While)):
@@ -170,7 +182,7 @@ class _Yielder(ast.NodeTransformer):
         return out
 
 
-def stepper(func, cls_name: str | None = None, inline_calls: bool = False):
+def stepper(func, cls_name: str | None = None, inline_calls: bool = False, split_aug: bool = False):
     """generator version of `func` (same globals), yielding before each statement;
     `cls_name`: compile inside a class of that name so that `self.__x` is mangled as in the original"""
     f = getattr(func, "__func__", func)
@@ -178,7 +190,7 @@ def stepper(func, cls_name: str | None = None, inline_calls: bool = False):
     tree = ast.parse(src)
     fn = tree.body[0]
     assert isinstance(fn, ast.FunctionDef)
-    _Yielder(inline_calls).visit(fn)
+    _Yielder(inline_calls, split_aug).visit(fn)
     if cls_name:
         tree.body = [ast.ClassDef(cls_name, [], [], [fn], [])]
     ast.fix_missing_locations(tree)
